@@ -513,6 +513,13 @@ func Dims() []Dim {
 			}
 		}})
 	}
+	// a kernel mapping whose file was replaced by the local kernel image after parsing (the driver does
+	// this and keeps the relocation symbol): the file name is what must survive
+	fileAlts = append(fileAlts, Alt{"remapped-kernel", func(s *Spec) {
+		if m := mp(s, 0); m != nil {
+			m.File, m.KRS = "/boot/vmlinux", "_text"
+		}
+	}})
 	add("m0.file", fileAlts...)
 	add("m0.build_id", strAlts(func(s *Spec) *string {
 		if m := mp(s, 0); m != nil {
